@@ -5,7 +5,8 @@
 (R) Every zoo model is driven along walks that cover every edge of its kind's state graph (calls with
     plain / view / non-contiguous / requires-grad inputs, mode switches, optimiser steps, reloads),
     recording what actually changed.
-(T) TLC judges every recorded step against TraceSession.tla; a verdict other than ok on a C13 clause
+(T) TLC judges every recorded step against TraceSession.tla - for the harness's own sessions and for
+    the histories recorded while the repository's own test-suite runs (vcore.suite_rec); a verdict other than ok on a C13 clause
     (argument modified, state written in eval, undocumented write in training, repeat differs) is a
     violation.
 """
@@ -73,8 +74,45 @@ def run_sessions(run, verdicts, thorough, n_random, rand_len, cover=True, max_co
     return traces
 
 
+def suite_sessions(run, verdicts, only=None):
+    """(T) on executions nobody here wrote: the repository's own test-suite run under the recorder
+    (vcore.suite_rec), once as it is and once with every directly called object switched to
+    evaluation mode first; TLC judges every recorded step with the same trace specification."""
+    from vcore import suite
+
+    for force_eval in (False, True):
+        d = suite.run_suite("session", force_eval=force_eval)
+        traces = d["session"]
+        run.extra["suite_pass_%s" % ("eval" if force_eval else "plain")] = {"pytest": d["pytest_tail"], "histories": len(traces), "events": sum(len(t["ev"]) for t in traces), "recorder_errors": d["n_errors"]}
+        for e in d["errors"][:3]:
+            run.note_drift("suite recorder: " + e)
+        if not traces:
+            raise T.MachineryError("the recorder saw no call in the test-suite: " + d["pytest_tail"])
+        bad, n = S.judge_traces(run, traces)
+        run.traces += n
+        run.evaluations += sum(len(t["ev"]) for t in traces)
+        for t in traces:
+            for ev in t["ev"]:
+                if ev["a"] == "Call":
+                    run.nontrivial.add(("suite", t["cls"], ev["op"], "eval" if force_eval else "plain"))
+        seen = set()
+        for t, idx, verdict in bad:
+            if verdict not in verdicts:
+                continue
+            ev = t["ev"][idx]
+            key = (t["cls"], verdict, ev.get("op"), tuple(ev.get("writes", [])))
+            if key in seen or (only and (t["test"], t["cls"], verdict) != only):
+                continue
+            seen.add(key)
+            case = {"kind": "suite", "test": t["test"], "cls": t["cls"], "force_eval": force_eval, "verdict": verdict}
+            run.violation({"model": t["cls"], "verdict": verdict, "op": ev.get("op"), "source": "test-suite"}, "%s in %s%s: %s at recorded step %d %s" % (t["cls"], t["test"], " (evaluation-mode pass)" if force_eval else "", verdict, idx + 1, {k: v for k, v in ev.items() if k != "a"}), case)
+
+
 def replay_case(run, c, verdicts):
     import warnings
+
+    if c.get("kind") == "suite":
+        return suite_sessions(run, verdicts, only=(c["test"], c["cls"], c["verdict"]))
 
     warnings.filterwarnings("ignore")
     import torch
@@ -102,8 +140,10 @@ def main(run, replay=None):
         return replay_case(run, replay["case"], C13_VERDICTS)
     thorough = run.tier == "thorough"
     run_sessions(run, C13_VERDICTS, thorough, n_random=8 if thorough else 1, rand_len=60 if thorough else 30, cover=True, max_cover_steps=None if thorough else 700, seeds=(0, 1) if thorough else (0,))
+    suite_sessions(run, C13_VERDICTS)
     run.exhaustive = thorough
     run.assumptions = [
+        "test-suite leg: the repository's tests are used as drivers only (twice: as written, and with every directly called object in evaluation mode, where the recorder repeats each deterministic call once); their own assertions play no role",
         "a side effect is observed through torch.equal / tensor version counters on caller tensors and through the state dict",
         "repeatability is judged per (operation, input kind) with the torch RNG re-seeded before every call",
         "exceptions raised by a call are recorded (coverage.calls_raising) but are not a C13 verdict",
